@@ -349,6 +349,11 @@ def run_sim(cfg, max_days=None, fail_gd_on=None, keep=False, hook=None):
         finally:
             rec.day = None
             rec.fail_gd = False
+        # every process the model's day calls must have been called by the implementation's day (the in-season growing-degree-day call only
+        # in a growing season): a day that skips one is structurally different from Day.v, whatever its numbers
+        missing = [short for name, short, args, res in SPEC if short != "gd" and short not in d["res"]]
+        if missing:
+            raise StructureMismatch("PROCESS-NOT-CALLED %s on step %d" % (",".join(missing), tsc))
         last.clear(); last.update(d["res"])
         nc = r[0]
         # ---- expected outputs
@@ -413,7 +418,7 @@ def run_sim(cfg, max_days=None, fail_gd_on=None, keep=False, hook=None):
     core.solution_single_time_step = step
     UT.reset_initial_conditions = reset
     rec.install()
-    err = None
+    err = None; structure = None
     try:
         n = 0
         while not m._clock_struct.model_is_finished:
@@ -423,11 +428,13 @@ def run_sim(cfg, max_days=None, fail_gd_on=None, keep=False, hook=None):
                 break
     except Exception as e:      # the implementation's own verdict; the days before it are still compared
         err = sim.exc_info(e)
+        if isinstance(e, StructureMismatch):
+            structure = str(e)
     finally:
         rec.uninstall()
         core.solution_single_time_step = _ORIG_STEP
         UT.reset_initial_conditions = _ORIG_RESET
-    out = {"days": days, "resets": resets, "error": err, "malformed": malformed}
+    out = {"days": days, "resets": resets, "error": err, "malformed": malformed, "structure": structure}
     if keep:      # what the whole-run suite (runc) compares at the end: clock and state after the last update_time
         ic = m._init_cond
         out["n_steps"] = int(len(cs.time_span))
@@ -461,6 +468,10 @@ def run_sim(cfg, max_days=None, fail_gd_on=None, keep=False, hook=None):
     return out
 
 
+class StructureMismatch(Exception):
+    """the implementation's day did not call a process that the model's day calls"""
+
+
 # ---------------------------------------------------------------------------------------------------------------
 def _canon(toks):
     return [canon(t) for t in toks]
@@ -481,6 +492,8 @@ def worker(payload):
             if v:
                 res[k] = res.get(k, 0) + 1
     if not lines:
+        if o.get("structure"):
+            res["bad"] = [{"kind": "structure", "what": o["structure"], "cfg": cfg}]; res["disagree"] = 1
         return res
     outs = run_driver(lines, unit="day")
     items = [("day", d) for d in o["days"]] + [("reset", r) for r in o["resets"]]
@@ -495,6 +508,8 @@ def worker(payload):
                                "order_ok": d.get("order_ok", True), "cfg": cfg})
         else:
             res["bad"].append(None)
+    if o.get("structure"):
+        res["bad"].insert(0, {"kind": "structure", "what": o["structure"], "cfg": cfg})
     res["disagree"] = len(res["bad"])
     res["bad"] = [b for b in res["bad"] if b][:3]
     return res
@@ -556,7 +571,7 @@ def gen(rng, n):
 
 
 def _gen_valid(rng, n):
-    k = 0; i = 0
+    k = 0; i = 0; nstruct = 0
     while k < n:
         cfg = sim.gen_config(rng_for("cfg", "day-gen", rng.random(), i), method=i % 6); i += 1
         o = run_sim(cfg)
@@ -566,6 +581,10 @@ def _gen_valid(rng, n):
         for r in o["resets"]:
             if k >= n: return
             yield Case("reset", r["line"], r["exp"], {"cfg": cfg, "season": r["season"]}); k += 1
+        if o.get("structure"):       # the implementation's day skipped a process the model's day calls: reported as a case the model cannot match
+            yield Case("structure", o["structure"].replace(" ", "_"), ["EVERY-PROCESS-OF-THE-MODEL-DAY-IS-CALLED"], {"cfg": cfg, "what": o["structure"]}); k += 1
+            nstruct += 1
+            if nstruct >= 12: return
 
 
 def gen_malformed(rng, n):
